@@ -19,6 +19,8 @@ let act_of (x : Sx.t) : act =
   | "w", [b] -> AWrite (str b)
   | "next", [] -> ANext
   | "cancel", [] -> ACancel
+  | "cancel", [_] -> ACancel    (* cancelled through a derived context that replaced the request's: the same event *)
+  | "wrap", [] -> AWrapRW
   | "panic", [v] -> APanic (nat_of_int (Sx.int_of v))
   | "maprh", [k] -> AMapRH (nat_of_int (Sx.int_of k))
   | "sub", [] -> ASub
@@ -118,24 +120,32 @@ let eval_c14 (input : Sx.t) (obs : Sx.t) =
   let m = repeat c.reps (model_result c) in
   let all = c.hs @ (match c.action with Some a -> [a] | None -> []) in
   let custom k = let k = int_of_nat k in (Some (z_of_int (290 + k), [n_of_int 82; n_of_int (48 + k)]), true) in
-  let rec first rh = function
-    | HNormal (acts, ret) :: rest when List.for_all (function AMapRH _ -> true | _ -> false) acts ->
+  let only_maps acts = List.for_all (function AMapRH _ | AWrapRW -> true | _ -> false) acts in
+  let rec first rh wr = function
+    | HNormal (acts, ret) :: rest when only_maps acts ->
         let rh' = List.fold_left (fun r a -> match a with AMapRH k -> Some k | _ -> r) rh acts in
-        if ret = [] then first rh' rest
+        let wr' = wr || List.mem AWrapRW acts in
+        if ret = [] then first rh' wr' rest
         else (match rh', c.apprh with
-          | Some k, _ -> custom k
-          | None, Some k -> custom k
+          | Some k, _ -> let (r, o) = custom k in (r, o, false)
+          | None, Some k -> let (r, o) = custom k in (r, o, false)
           | None, None ->
-              if not (supported ret) then (None, false)
-              else (match table ret with Some (st, b) -> (Some (st, b), false) | None -> first rh' rest))
-    | _ -> (None, false) in
-  let (spec, cls, nt) = (match first None all with
-    | (Some (st, b), over) ->
+              if not (supported ret) then (None, false, false)
+              else (match table ret with Some (st, b) -> (Some (st, b), false, wr') | None -> first rh' wr' rest))
+    | _ -> (None, false, false) in
+  let (spec, cls, nt) = (match first None false all with
+    | (Some (st, b), over, wr) ->
+        (* through a re-mapped http.ResponseWriter the table's body arrives behind the wrapper's marker *)
+        let chunks r = List.filter_map (fun ch -> match Sx.tag ch, Sx.args ch with
+            | "b", [x] -> Some (ocaml_string_of_str (str x)) | _ -> None) (Sx.args (Sx.field "body" r)) in
         let ok = List.for_all (fun r ->
           obs_status r = int_of_z st &&
-          (c.head || obs_body_concat r = ocaml_string_of_str b)) (Sx.args obs) in
-        (ok, (if over then "override" else Printf.sprintf "table"), true)
-    | (None, _) -> (true, "undecided", false)) in
+          (c.head ||
+           if wr then String.concat "" (List.filter (fun x -> x <> "W") (chunks r)) = ocaml_string_of_str b
+                      && (b = [] || List.mem "W" (chunks r))
+           else obs_body_concat r = ocaml_string_of_str b)) (Sx.args obs) in
+        (ok, (if over then "override" else if wr then "table-through-remapped-writer" else "table"), true)
+    | (None, _, _) -> (true, "undecided", false)) in
   (m, spec, nt, cls)
 
 (* C15: Recovery present, handlers before it do not panic themselves (the property has no further premise;
